@@ -28,8 +28,8 @@ RefAcfs(fs) ==
        IN a2 \o RefAcfs(Tail(fs))
 RefPacket(fs) ==
   LET body == RefAcfs(fs)
-      hdr  == SetSem(InitSem(Fill(HdrLen[CfView], 0), 0, CfView), 0, CfView, CfLenField, V64(Len(body)))
-  IN (IF Udp = 1 THEN <<0, 0, 0, 0>> ELSE << >>) \o hdr \o body
+      hdr  == SetSem(SetSem(InitSem(Fill(HdrLen[CfView], 0), 0, CfView), 0, CfView, CfLenField, V64(Len(body))), 0, CfView, "sequence_num", V64(nsent % 256))
+  IN (IF Udp = 1 THEN SubBytes(V64(nsent), 4, 4) ELSE << >>) \o hdr \o body
 
 GInit == Init /\ k = 0 /\ mem = << >> /\ hb = << >> /\ out = Sentinel /\ step = << >>
 GNext ==
